@@ -6,7 +6,7 @@
    filters and of the set-theoretic queries. *)
 From Coq Require Import String ZArith List Bool.
 From XV Require Import Base.Label Base.LSet Base.ODict Base.Attr Base.Outcome Model.Hypergraph Model.Stats
-  Proofs.HgViews Proofs.HgInv Proofs.StatsProofs.
+  Proofs.HgViews Proofs.HgInv Proofs.StatsProofs Model.DiHypergraph Proofs.DiInv.
 Import ListNotations.
 Open Scope Z_scope.
 
@@ -31,6 +31,18 @@ Theorem C06_handshake_order : forall s d, Inv s ->
   list_sum (map (fun e => if Nat.eqb (length (mems s e)) d then length (mems s e) else 0%nat) (ekeys s)).
 Proof. exact handshake_order. Qed.
 Print Assumptions C06_handshake_order.
+
+(* directed networks: at every reachable state the out-degrees sum to the tail sizes and the
+   in-degrees to the head sizes (the two sides of the directed incidence each satisfy Inv) *)
+Theorem C06_directed_handshake : forall ops,
+  let d := drun ops dhg_empty in
+  list_sum (map (fun n => length (mships (ts d) n)) (nkeys (ts d))) = list_sum (map (fun e => length (tail d e)) (ekeys (ts d))) /\
+  list_sum (map (fun n => length (mships (hs d) n)) (nkeys (hs d))) = list_sum (map (fun e => length (head d e)) (ekeys (hs d))).
+Proof.
+  intros ops d. destruct (drun_DInv ops dhg_empty DInv_empty) as (I1 & I2 & _).
+  split; [exact (handshake (ts d) I1)|exact (handshake (hs d) I2)].
+Qed.
+Print Assumptions C06_directed_handshake.
 
 (* asdict / aslist / asnumpy / aspandas / multi are the same function mapped along the view *)
 Theorem C06_formats_agree : forall view f, map snd (along view f) = map f view /\ map fst (along view f) = view.
